@@ -41,6 +41,16 @@ def run(tier):
         mod = "f" if e["case"].endswith("f") else "i"
         pc = specs[cid]
         kind = e["conv"][4:] if e["conv"].startswith("try_") else e["conv"]
+        if pc.kind == "hinted":
+            ids = [p[0] for p in e.get("probes", [])]
+            want_ids = pc.expect[mod][kind]
+            fam, k2 = kind.split(":")
+            ck.cell(["hinted", fam, pc.a_ty if fam == "A" else "TB as {}", pc.a_nv if fam == "A" else 0, "update" if fam == "A" else "return", k2, mod])
+            if e["got"] != e["want"]:
+                ck.violation(f"params|wrong_value|hinted_{fam}|{k2}|{'update' if fam == 'A' else 'return'}", dict(input=pc.inputs[mod], conversion=e["conv"], got=e["got"], want=e["want"]))
+            elif ids != want_ids:
+                ck.violation(f"params|probe_sequence|hinted_{fam}|{k2}", dict(input=pc.inputs[mod], conversion=e["conv"], probes_observed=ids, probes_expected=want_ids))
+            continue
         d = next(x for x in pc.instrs if kind in kinds_of(x["name"]))
         ids = [p[0] for p in e.get("probes", [])]
         if pc.kind == "struct":
